@@ -410,8 +410,8 @@ def vjobs(profile, fams):
     return [('vec', f, profile) for f in fams]
 
 
-SET_FLAT = ['ETriv_flat', 'ETr_flat', 'ENonTr_flat']
-SET_SMALL = ['ETriv_small', 'ETr_small', 'ENonTr_small']
+SET_FLAT = ['ETriv_flat', 'ETr_flat', 'ENonTr_flat', 'Str_flat']
+SET_SMALL = ['ETriv_small', 'ETr_small', 'ENonTr_small', 'Str_small']
 SET_HOOKS = ['ETr_flat', 'ENonTr_flat', 'ETr_small', 'ENonTr_small']
 
 
@@ -609,7 +609,7 @@ def run_sim_check(prop, tier, seed, seconds_override=None):
     for (variant, seconds) in phases:
         binaries[variant] = build(variant)
     for (variant, seconds) in phases:
-        workers = min(NPROC, 8) if variant.startswith('asan') else NPROC
+        workers = NPROC  # measured here: 16 sanitizer workers execute ~1.6x the runs of 8 on the 16 cores
         s = Search(binaries[variant], variant, seed, seconds, workers)
         s.run([j for j in jobs if j[0] == 'vec'] if VARIANTS[variant].get('vec_only') else jobs)
         searches.append(s)
